@@ -163,8 +163,12 @@ package keeper
 // The callback run for every bonded validator keeps the two parallel slices aligned and collects only
 // oracle-active validators.
 //@ func (k Keeper) GetRandomValidators$lit0
+// what the staking keeper passes in (assumed of IterateBondedValidatorsByPower): bonded validators, each with tokens
+// between 1 and 2^50 (uband), fewer than 8192 of them
+//@ requires 1 <= ext("ValidatorI.GetTokens", val) && ext("ValidatorI.GetTokens", val) <= 1125899906842624 && len(valPowers) < 8192
 //@ maintains len(valOperators) == len(valPowers)
 //@ maintains forall j :: 0 <= j && j < len(valOperators) ==> vstatus(Store_oracle, valOperators[j]).IsActive
+//@ maintains bandrng.okWeights(valPowers)
 // the callback never asks the iteration to stop (IterateBondedValidatorsByPower ends early only when it returns
 // true): every bonded validator is visited, and every visited oracle-active one is collected, with its tokens
 //@ ensures !stop
@@ -177,7 +181,10 @@ package keeper
 // Exactly `size` validators, every one of them oracle-active at that moment, or an error when fewer than
 // `size` are eligible.
 //@ func (k Keeper) GetRandomValidators
-//@ requires size >= 0 && 1 <= oracleParams(Store_oracle).SamplingTryCount && oracleParams(Store_oracle).SamplingTryCount <= MaxInt64
+//@ modifies RngLast, RngEntropy, RngNonce, RngPers
+// the draw is a function of (rolling seed, request id, chain id) only: that is what seeds the generator
+//@ ensures err == nil ==> RngEntropy == rollingSeedOf(Other) && RngNonce == u64be(id) && RngPers == bytes(ctx.ChainID())
+//@ requires size >= 1 && 1 <= oracleParams(Store_oracle).SamplingTryCount && oracleParams(Store_oracle).SamplingTryCount <= MaxInt64
 //@ ensures err == nil ==> len(result) == size
 //@ ensures err == nil ==> (forall i :: 0 <= i && i < len(result) ==> vstatus(Store_oracle, result[i]).IsActive)
 //@ loop 0: invariant forall j :: 0 <= j && j < #i ==> vstatus(Store_oracle, validators[j]).IsActive
